@@ -80,6 +80,34 @@ def gen_cases(tier, seed):
                        else r.randint(1, maxobj), names=names)
         if first is None:
             continue
+        if comp and not unit_diff and r.random() < 0.12:
+            # a diagonal block (both indices in one space) of a tensor that is
+            # declared bra-ket antisymmetric: its canonical orientation depends
+            # on the index names, renamed copies must still be matched
+            used = set(ir.term_indices(first))
+            sp_ = r.choice(['occ', 'virt'])
+            sfx = r.choice('ab') if spin else ''
+            p_ = g.fresh(sp_, used, sfx)
+            used.add(p_)
+            q_ = g.fresh(sp_, used, sfx)
+            rank2 = r.random() < 0.3
+            if rank2:
+                used.add(q_)
+                p2 = g.fresh(sp_, used, sfx)
+                used.add(p2)
+                q2 = g.fresh(sp_, used, sfx)
+                first['objs'].append({'t': 'anti', 'name': 'g', 'up': [p_, p2],
+                                      'lo': [q_, q2], 'bk': 0})
+                first['objs'].append({'t': 'non', 'name': 'x',
+                                      'up': [p_, q_, p2, q2]})
+                assump['antisym_tensors'] = ['g']
+            else:
+                first['objs'].append({'t': 'anti', 'name': 'h', 'up': [p_],
+                                      'lo': [q_], 'bk': 0})
+                first['objs'].append({'t': 'non', 'name': 'x', 'up': [p_, q_]})
+                assump['antisym_tensors'] = ['h']
+            assump['sym_tensors'] = [n_ for n_ in assump['sym_tensors']
+                                     if n_ not in ('g', 'h')]
         targets = ir.term_targets(first)
         if targets and r.random() < 0.25:
             # unevaluated delta linking a target with a contracted index
